@@ -1273,8 +1273,27 @@ def _chain(pe, st, args, t):
     return ("iter", tuple(a[1][a[2]:]) + tuple(b[1][b[2]:]), 0)
 
 
+def _range_from(v):
+    """(type, start) of a `start..` with a known start, else None"""
+    if v != TOP and v[0] == "adt" and v[1] in ("std::ops::RangeFrom", "core::ops::RangeFrom") and v[4] and v[4][0] != TOP and v[4][0][0] == "int":
+        return (v[4][0][1] or "usize", v[4][0][2])
+    return None
+
+
 @pmodel("std::iter::Iterator::zip")
 def _zip(pe, st, args, t):
+    rfa, rfb = _range_from(args[0]), _range_from(args[1])
+    if rfa or rfb:
+        # an endless `start..` zipped with a finite iterator: as long as the finite one (a counter that would overflow its type
+        # first does not occur for the lengths evaluated here)
+        other = _as_iter(pe, st, args[1] if rfa else args[0]) if not (rfa and rfb) else None
+        if other is None or (len(other) > 3 and other[3] == ("cycle",)):
+            raise _Abort("top", "zip() of an endless range with an unknown or endless iterator")
+        items = list(other[1][other[2]:])
+        ty, s0 = rfa or rfb
+        cnt = [mk_int(ty, s0 + i) for i in range(len(items))]
+        pairs = zip(cnt, items) if rfa else zip(items, cnt)
+        return ("iter", tuple(("tuple", (x, y)) for x, y in pairs), 0)
     a, b = _as_iter(pe, st, args[0]), _as_iter(pe, st, args[1])
     if a is None or b is None:
         raise _Abort("top", "zip() of an unknown iterator")
@@ -1290,6 +1309,9 @@ def _zip(pe, st, args, t):
 
 @pmodel("std::iter::Iterator::take")
 def _take(pe, st, args, t):
+    rf = _range_from(args[0])
+    if rf and args[1] != TOP and args[1][0] == "int":
+        return ("iter", tuple(mk_int(rf[0], rf[1] + i) for i in range(args[1][2])), 0)
     a, n = _as_iter(pe, st, args[0]), args[1]
     if a is None or n == TOP or n[0] != "int":
         raise _Abort("top", "take() of an unknown iterator")
